@@ -329,3 +329,10 @@ Theorem ip_total_refuted_unwrap_valueerror :
   normalize_ip pton ntop false true false s = Exc ValueError /\
   normalize_ip pton ntop false false false s = Ok s.
 Proof. vm_compute. auto. Qed.
+
+(* the facts about libc's inet_pton / inet_ntop (AF_INET6) that the theorems use, as one premise *)
+Definition oracle_facts (pton : str -> pres) (ntop : list N -> str) : Prop :=
+  (forall s b, pton s = PBytes b -> length b = 16%nat /\ all_bytes b = true) /\
+  (forall s b, pton s = PBytes b -> pton (ntop b) = PBytes b) /\
+  (forall s b, pton s = PBytes b -> has SLASH s = false) /\
+  (forall s b, pton s = PBytes b -> has COLON s = true).
